@@ -7,6 +7,7 @@ use std::ops::Bound;
 use super::*;
 use crate::catalog::ColumnRefId;
 use crate::storage::KeyRange;
+use crate::types::{DataType, DataValue};
 
 /// The data type of range analysis.
 ///
@@ -103,14 +104,23 @@ pub fn filter_scan_rule() -> Vec<Rewrite> { vec![
 fn is_primary_key_range(expr: &str) -> impl Fn(&mut EGraph, Id, &Subst) -> bool {
     let var = var(expr);
     move |egraph, _, subst| {
-        let Some((column, _)) = &egraph[subst[var]].data.range else {
+        let Some((column, range)) = &egraph[subst[var]].data.range else {
             return false;
         };
+        // The storage range scan only handles INT keys compared with INT constants (other begin
+        // keys panic in `start_rowid`, values of different types compare by variant).
+        let is_int = |b: &Bound<DataValue>| match b {
+            Bound::Included(v) | Bound::Excluded(v) => matches!(v, DataValue::Int32(_)),
+            Bound::Unbounded => true,
+        };
+        if !is_int(&range.start) || !is_int(&range.end) {
+            return false;
+        }
         if let Some(col) = egraph.analysis.catalog.get_column(column) {
             // The range scan of the storage engine picks the start row from the block index of the
             // table's first column and masks rows by the first scanned column (the scan list is in
             // table order): it is only correct for a key that is the first column of the table.
-            col.is_primary() && column.column_id == 0
+            col.is_primary() && column.column_id == 0 && col.data_type() == DataType::Int32
         } else {
             // handle the case that catalog is not initialized, like in test cases
             false
